@@ -110,6 +110,55 @@ func checkContainment(c ugen.Case) error {
 	return nil
 }
 
+// ---------------------------------------------------------------------------
+// several Unpack calls into the same destination path: nothing a call learnt
+// about the destination may be trusted by the next one.
+
+var subSequence = ev.Register("sequence", checkSequence)
+
+func checkSequence(s ugen.SeqCase) error {
+	a, err := ugen.NewArena(s.First)
+	if err != nil {
+		return fmt.Errorf("harness: arena: %v", err)
+	}
+	defer a.Close()
+	before, err := a.SnapshotOutside()
+	if err != nil {
+		return fmt.Errorf("harness: snapshot: %v", err)
+	}
+	for i := 0; i <= len(s.More); i++ {
+		c := s.AsCase(i)
+		if i > 0 && s.More[i-1].Wipe {
+			a.Wipe()
+			ev.Label("wiped-between")
+		}
+		uerr, panicked := unpack(c, a)
+		if str, ok := panicked.(string); ok && strings.HasPrefix(str, "harness-") {
+			ev.Label("archive-not-buildable")
+			return nil
+		}
+		after, err := a.SnapshotOutside()
+		if err != nil {
+			return fmt.Errorf("harness: snapshot after: %v", err)
+		}
+		if d := fsx.Diff(before, after, fsx.AllFields); len(d) > 0 {
+			if len(d) > 6 {
+				d = d[:6]
+			}
+			return fmt.Errorf("Unpack number %d into the same destination (returned %v) changed the arena outside dst: %s", i+1, uerr, strings.Join(d, "; "))
+		}
+		if panicked != nil {
+			return fmt.Errorf("Unpack number %d panicked: %v", i+1, panicked)
+		}
+	}
+	ev.NonTrivial(s, "several-unpacks-one-destination")
+	return nil
+}
+
+func TestPropSequence(t *testing.T) {
+	ev.Check(t, subSequence, ugen.GenSeq)
+}
+
 func TestPropContainment(t *testing.T) {
 	ev.Check(t, subContain, func(t *rapid.T) ugen.Case {
 		return ugen.GenCase(t, 35, 12, true, true)
